@@ -74,7 +74,7 @@ FAMILIES = {
     },
     "notif": {
         "fix_all": ["blockentry", "overwrite"], "trace_fix": [],
-        "mc": {"module": "MCNotif", "cfg": {"quick": "Notif-mc-quick.cfg", "thorough": ["Notif-mc-quick.cfg"]}, "timeout": {"quick": 300, "thorough": 1800}},
+        "mc": {"module": "MCNotif", "cfg": {"quick": "Notif-mc-quick.cfg", "thorough": ["Notif-mc-quick.cfg", "Notif-mc-thorough.cfg"]}, "timeout": {"quick": 300, "thorough": 1800}},
         "sim": {"module": "SimNotif", "cfg": "Notif-sim.cfg",
                 "tiers": {"quick": {"num": 100, "depth": 30, "workers": 4}, "thorough": {"num": 3000, "depth": 40, "workers": 8, "timeout": 2400}}},
         "trace_module": "NotifTrace", "trace_cfg": "Notif-trace.cfg",
